@@ -143,9 +143,10 @@ def checkWcmp (ops dl nl dr nr l r res : String) : Option Verdict := do
   let wl := width sl; let wr := width sr
   let rhsWider := wr > wl
   -- different signedness: the common type is the wider one (the unsigned one at equal widths, built-in only)
-  let commonSigned := if nl.signed == nr.signed then nl.signed
-    else if wl == wr then false else if rhsWider then nr.signed else nl.signed
-  let byValue := nl.signed == nr.signed || ((commonSigned && wl != wr) || (l ≥ 0 && r ≥ 0))
+  let commonSigned := match sl, sr with
+    | .builtin s, .builtin t => (usualArith s t).signed
+    | _, _ => if wl == wr then nl.signed && nr.signed else if rhsWider then nr.signed else nl.signed
+  let byValue := nl.signed == nr.signed || commonSigned || (l ≥ 0 && r ≥ 0)
   let kind := match sl, sr with
     | .builtin _, .builtin _ => "bb" | .builtin _, .multi _ => "bm" | .multi _, .builtin _ => "mb" | .multi _, .multi _ => "mm"
   some { model := showRes showBool m, spec := if byValue then some (res == showBool (WideSpec.specCmp op l r)) else none,
